@@ -372,14 +372,58 @@ func (ch *chain) has(h int64) bool { return h >= ch.ih && h < ch.ih+maxChain }
 
 // variant returns the block at height h built on the canonical state h-1 with the given
 // transaction variant, flaw and LastCommit (nil = the canonical full commit).
-func (ch *chain) variant(h int64, txv int, flaw bool, lc *types.Commit) *types.Block {
+// flaw kinds: 0 none; what only BlockExecutor.ValidateBlock (validateBlock + the evidence pool)
+// rejects, never Block.ValidateBasic: 1 AppHash, 2 ConsensusHash, 3 LastResultsHash,
+// 4 ValidatorsHash, 5 block time off the median, 6 inadmissible evidence (forged duplicate votes of
+// a key that is no validator). 5 and 6 are checked after the LastCommit.
+const nFlaws = 6
+
+func badEvidence(h int64) types.Evidence {
+	vh := h - 1
+	if vh < 1 {
+		vh = 1
+	}
+	mk := func(tag byte) *types.Vote {
+		hash := make([]byte, 32)
+		for i := range hash {
+			hash[i] = tag
+		}
+		sig := make([]byte, 64)
+		for i := range sig {
+			sig[i] = tag + 0x40
+		}
+		return &types.Vote{Type: tmproto.PrevoteType, Height: vh, Round: 0,
+			BlockID:   types.BlockID{Hash: hash, PartSetHeader: types.PartSetHeader{Total: 1, Hash: hash}},
+			Timestamp: baseTime, ValidatorAddress: keys[nKeys-1].PubKey().Address(), ValidatorIndex: 0, Signature: sig}
+	}
+	return &types.DuplicateVoteEvidence{VoteA: mk(1), VoteB: mk(2), TotalVotingPower: 10, ValidatorPower: 1, Timestamp: baseTime}
+}
+
+func (ch *chain) variant(h int64, txv int, flaw int, lc *types.Commit) *types.Block {
 	if lc == nil {
 		lc = ch.full[h-1]
 	}
 	st := ch.states[h-1]
-	b, _ := st.MakeBlock(h, ch.txsFor(txv, h), lc, nil, st.Validators.Validators[0].Address)
-	if flaw {
+	var ev []types.Evidence
+	if flaw == 6 {
+		ev = []types.Evidence{badEvidence(h)}
+	}
+	b, _ := st.MakeBlock(h, ch.txsFor(txv, h), lc, ev, st.Validators.Validators[0].Address)
+	other := make([]byte, 32)
+	for i := range other {
+		other[i] = 0x11
+	}
+	switch flaw {
+	case 1:
 		b.AppHash = []byte("not-the-app-hash")
+	case 2:
+		b.ConsensusHash = other
+	case 3:
+		b.LastResultsHash = other
+	case 4:
+		b.ValidatorsHash = other
+	case 5:
+		b.Time = b.Time.Add(time.Second)
 	}
 	return b
 }
@@ -393,12 +437,12 @@ func (ch *chain) nvOf(h int64, txv int) string {
 }
 
 // target of a commit: block (h, ttxv, tflaw) with canonical LastCommit; wp flips the part-set hash
-func (ch *chain) target(h int64, ttxv int, tflaw bool, wp bool) types.BlockID {
+func (ch *chain) target(h int64, ttxv int, tflaw int, wp bool) types.BlockID {
 	if !ch.has(h) {
 		return types.BlockID{}
 	}
 	var id types.BlockID
-	if ttxv == 0 && !tflaw {
+	if ttxv == 0 && tflaw == 0 {
 		id = ch.ids[h]
 	} else {
 		id = blockIDOf(ch.variant(h, ttxv, tflaw, nil))
@@ -424,9 +468,9 @@ func idTok(id types.BlockID) string { return tok32(id.Hash) + "/" + tok32(id.Par
 type blockSpec struct {
 	h     int64
 	txv   int
-	flaw  bool
+	flaw  int
 	ttxv  int
-	tflaw bool
+	tflaw int
 	twp   bool
 	lch   int64
 	toks  []sigTok
@@ -504,13 +548,13 @@ func (ch *chain) blockOp(p int, s blockSpec) string {
 		ws.mal = ""
 		wb := ch.build(ws)
 		return fmt.Sprintf("block p=%d h=%d id=0/0 prev=%s flaw=%s lc=%d:0:%s:%s nv=%s mal=1 d=%d/%d%s%s/%s",
-			p, s.h, idTok(wb.LastBlockID), b01(s.flaw), s.lch, idTok(wb.LastCommit.BlockID), toksStr(s.toks),
-			ch.nvOf(s.h, s.txv), s.txv, s.ttxv, b01(s.tflaw), b01(s.twp), s.mal)
+			p, s.h, idTok(wb.LastBlockID), strconv.Itoa(s.flaw), s.lch, idTok(wb.LastCommit.BlockID), toksStr(s.toks),
+			ch.nvOf(s.h, s.txv), s.txv, s.ttxv, strconv.Itoa(s.tflaw), b01(s.twp), s.mal)
 	}
 	b := ch.build(s)
 	return fmt.Sprintf("block p=%d h=%d id=%s prev=%s flaw=%s lc=%d:0:%s:%s nv=%s mal=0 d=%d/%d%s%s/-",
-		p, s.h, idTok(blockIDOf(b)), idTok(b.LastBlockID), b01(s.flaw), s.lch, idTok(b.LastCommit.BlockID), toksStr(s.toks),
-		ch.nvOf(s.h, s.txv), s.txv, s.ttxv, b01(s.tflaw), b01(s.twp))
+		p, s.h, idTok(blockIDOf(b)), idTok(b.LastBlockID), strconv.Itoa(s.flaw), s.lch, idTok(b.LastCommit.BlockID), toksStr(s.toks),
+		ch.nvOf(s.h, s.txv), s.txv, s.ttxv, strconv.Itoa(s.tflaw), b01(s.twp))
 }
 
 func kv(op string) map[string]string {
@@ -570,10 +614,11 @@ func (ch *chain) parseBlockOp(m map[string]string) (blockSpec, bool) {
 	if s.h, err = strconv.ParseInt(m["h"], 10, 64); err != nil || !ch.has(s.h) {
 		return s, false
 	}
-	if _, err := strconv.ParseUint(m["flaw"], 10, 64); err != nil {
+	fl, err := strconv.ParseUint(m["flaw"], 10, 64)
+	if err != nil || fl > nFlaws {
 		return s, false
 	}
-	s.flaw = m["flaw"] != "0"
+	s.flaw = int(fl)
 	lc := strings.Split(m["lc"], ":")
 	if len(lc) != 4 || !isIDTok(m["id"]) || !isIDTok(m["prev"]) || !isIDTok(lc[2]) || !isSetStr(m["nv"]) {
 		return s, false
@@ -611,7 +656,10 @@ func (ch *chain) parseBlockOp(m map[string]string) (blockSpec, bool) {
 		return s, false
 	}
 	s.ttxv = int(d[1][0] - '0')
-	s.tflaw = d[1][1] == '1'
+	s.tflaw = int(d[1][1] - '0')
+	if s.tflaw < 0 || s.tflaw > nFlaws {
+		return s, false
+	}
 	s.twp = d[1][2] == '1'
 	return s, true
 }
